@@ -446,10 +446,8 @@ func (w *matWorld) step(r *prng.Rand, cs *fw.Case, nvar, order int) (string, str
 					applyScalarOp(sop, exp[i], w.m[i], rhs(i))
 				}
 				rw := &matWorld{t: w.t, a: recv, R: w.R, C: w.C, m: exp, dense: rs == gen.Dense}
-				if !rw.modelAmbiguous() {
-					if f := rw.check(true); f != nil {
-						fail = &failure{f.kind, "on the receiver: " + f.msg}
-					}
+				if f := rw.check(true); f != nil {
+					fail = &failure{f.kind, "on the receiver: " + f.msg}
 				}
 			}
 		}
@@ -627,8 +625,7 @@ func runMatrixHistory(cs *fw.Case, t gen.ElemType, steps int) {
 			return
 		}
 		if w.modelAmbiguous() {
-			cs.Cover("history-stopped:zero-value-with-derivative")
-			break
+			cs.Cover("history-with-zero-value-nonzero-derivative-element")
 		}
 		switch strings.SplitN(op, ":", 2)[0] {
 		case "iter-new", "iter-next", "Slice", "Clone", "at", "Row", "Col", "Diag":
